@@ -1,4 +1,5 @@
 import OnetVerif.Model.C05
+import OnetVerif.Shapes
 /-! Property C05 — one instance's handlers run one at a time, in acceptance order; a blocked
 handler delays only its own instance.  All statements are for arbitrary schedules (`List Act`),
 hence unboundedly many feeders, messages and interleavings. -/
@@ -176,5 +177,31 @@ example : ∃ s, run {} [.accept 1, .reader, .accept 2, .accept 3, .reader, .rea
     s.started = [1, 2, 3] ∧ s.finished = [1, 2] ∧ s.accepted = [1, 2, 3] := by
   refine ⟨_, rfl, ?_⟩; decide
 example : step { pc := .handling 7 } (.accept 9) ≠ none := c05_handover_nonblocking _ _
+
+/-! ### the code regions the model stands for
+Regenerated from /repo's source on every run (`harness/cmd/astfacts` → `OnetVerif/Shapes.lean`): the
+calls that matter for synchronisation and data flow, the lock regions and (for decision logic) the
+conditions, in source order.  A re-ordering, a dropped call or a changed condition breaks these
+obligations even when no sampled input or schedule shows a difference; the check then searches for
+a failing input. -/
+theorem c05_shape_TreeNodeInstance_ProcessProtocolMsg :
+    Shapes.treenode_TreeNodeInstance_ProcessProtocolMsg =
+   ["msgDispatchQueueMutex.Lock", "defer:msgDispatchQueueMutex.Unlock", "if:n.closing",
+     "return:", "n.notifyDispatch"] := rfl
+
+theorem c05_shape_TreeNodeInstance_notifyDispatch :
+    Shapes.treenode_TreeNodeInstance_notifyDispatch =
+   ["send:msgDispatchQueueWait"] := rfl
+
+theorem c05_shape_TreeNodeInstance_dispatchMsgReader :
+    Shapes.treenode_TreeNodeInstance_dispatchMsgReader =
+   ["msgDispatchQueueMutex.Lock", "msgDispatchQueueMutex.Unlock", "msgDispatchQueueMutex.Unlock",
+     "n.dispatchMsgToProtocol", "msgDispatchQueueMutex.Unlock", "recv:msgDispatchQueueWait"] := rfl
+
+theorem c05_shape_TreeNodeInstance_closeDispatch :
+    Shapes.treenode_TreeNodeInstance_closeDispatch =
+   ["defer{", "}", "msgDispatchQueueMutex.Lock", "close:msgDispatchQueueWait",
+     "msgDispatchQueueMutex.Unlock", "n.ProtocolInstance", "pni.Shutdown"] := rfl
+
 
 end C05
